@@ -823,3 +823,34 @@ mod tests {
         }
     }
 }
+
+#[cfg(substrate_fixed_verif)]
+pub(crate) mod verif_hook {
+    // new-types that call the real formatters with a run-time frac_nbits; no logic
+    use super::{fmt_dec, fmt_radix2, FmtHelper, Radix};
+    use core::fmt::{Binary, Display, Formatter, LowerHex, Octal, Result as FmtResult, UpperHex};
+    pub struct FmtDec<U>(pub bool, pub U, pub u32);
+    pub struct FmtRadix2<U>(pub bool, pub U, pub u32);
+    macro_rules! hooks {
+        ($($U:ty),*) => { $(
+            impl Display for FmtDec<$U> {
+                fn fmt(&self, f: &mut Formatter) -> FmtResult { fmt_dec((self.0, self.1), self.2, f) }
+            }
+            impl Binary for FmtRadix2<$U> {
+                fn fmt(&self, f: &mut Formatter) -> FmtResult { fmt_radix2((self.0, self.1), self.2, Radix::Bin, f) }
+            }
+            impl Octal for FmtRadix2<$U> {
+                fn fmt(&self, f: &mut Formatter) -> FmtResult { fmt_radix2((self.0, self.1), self.2, Radix::Oct, f) }
+            }
+            impl LowerHex for FmtRadix2<$U> {
+                fn fmt(&self, f: &mut Formatter) -> FmtResult { fmt_radix2((self.0, self.1), self.2, Radix::LowHex, f) }
+            }
+            impl UpperHex for FmtRadix2<$U> {
+                fn fmt(&self, f: &mut Formatter) -> FmtResult { fmt_radix2((self.0, self.1), self.2, Radix::UpHex, f) }
+            }
+        )* };
+    }
+    hooks! { u8, u16, u32, u64, u128 }
+    #[allow(dead_code)]
+    fn _uses<U: FmtHelper>() {}
+}
